@@ -656,7 +656,7 @@ fn history(ctx: &mut Ctx, r: &mut Rng, prop: &'static str, lockstep: bool) {
 }
 
 pub fn run_c12(ctx: &mut Ctx) {
-    let n = ctx.n(60_000, 8_000_000);
+    let n = ctx.n(150_000, 8_000_000);
     random_cases!(ctx, n, |r, _i| {
         history(ctx, &mut r, "C12", false);
     });
@@ -718,7 +718,7 @@ pub fn run_c14(ctx: &mut Ctx) {
             }
         }
     }
-    let n = ctx.n(40_000, 6_000_000);
+    let n = ctx.n(100_000, 6_000_000);
     random_cases!(ctx, n, |r, _i| {
         if r.chance(1, 4) {
             let mut a = Allocator::new();
